@@ -1,13 +1,17 @@
 #!/bin/sh
 # replay every stored behaviour-preserving refactoring against all 20 quick checks; exit 1 if any check is not silent
+# (JOBS refactorings at a time, default 3; each runs its 20 checks concurrently on a scratch copy, /repo is not touched)
 cd /verif || exit 2
-bad=0
-for d in refactors/*/; do
-  id=$(basename "$d")
+one() {
+  d="$1"; id=$(basename "$d")
   out=$(tools/run_refactor.sh "$d/patch.diff" 2>&1 | grep -v "^WARNING")
   exp=$(python3 -c "import json,sys; print(json.load(open(sys.argv[1])).get('expected','silent'))" "$d/meta.json" 2>/dev/null)
   if [ -z "$out" ]; then echo "$id silent";
   elif [ "$exp" = "inconclusive" ] && ! echo "$out" | grep -q "exit=1"; then echo "$id no verdict (as recorded)";
-  else echo "## $id"; echo "$out"; bad=1; fi
-done
-exit $bad
+  else echo "## $id NOT SILENT"; echo "$out"; fi
+}
+if [ "$1" = "--one" ]; then one "$2"; exit 0; fi
+res=$(ls -d refactors/*/ | xargs -P "${JOBS:-3}" -n 1 "$0" --one)
+echo "$res"
+echo "$res" | grep -q "NOT SILENT" && exit 1
+exit 0
